@@ -62,7 +62,9 @@ CONSTANTS Configs, OptNames, SecNames, Values, Decos, MaxNodes, MaxDepth,   \* d
           FputSeps,     \* separator strings of mpt_path_fputs (Null0 = default "/")
           MaxOps,       \* calls per behaviour (exhaustive runs)
           MaxArr,       \* calls per behaviour other than single assignments / removals
-          SinglesFirst, \* TRUE: single calls only before the first other call (exhaustive runs)
+          SingleWhen,   \* "any" | "first": single calls only before the first other call | "around": single
+                        \* assignments before it, single removals after it (exhaustive runs)
+          QuoteSet,     \* quote characters the draft may use (0 = bare); the format's own are CT!Quotes
           Observe       \* TRUE: the expected answers of all universe queries are part of obs (export, traces)
 
 VARIABLES dcfg, dtext, dstack, dnn, doc,   \* draft document (ConfText)
@@ -91,6 +93,8 @@ DocTree(d) == d.exp.tree
 HasCh(s, c) == \E i \in DOMAIN s : s[i] = c
 After(s, c) == SubSeq(s, MinOf({j \in DOMAIN s : s[j] = c}) + 1, Len(s))
 Lower(s) == [i \in DOMAIN s |-> IF s[i] \in 65..90 THEN s[i] + 32 ELSE s[i]]
+\* a value is observed as text: what follows a NUL byte (a terminator sent along with the value) is not part of it
+TextOf(v) == IF HasCh(v, 0) THEN SubSeq(v, 1, MinOf({j \in DOMAIN v : v[j] = 0}) - 1) ELSE v
 Under(b, as) == [i \in DOMAIN as |-> [p |-> b \o as[i].p, v |-> as[i].v]]
 
 ---------------------------------------------------------------------------
@@ -199,7 +203,7 @@ Store(a, arg, t2, s2, eff) ==
 Drafting == nops = 0 /\ Routes \cap {"load", "nodeparse", "parsenode"} # {}
 DraftItem ==
   /\ Drafting
-  /\ \/ \E name \in OptNames, v \in Values, q \in CT!Quotes, d \in Decos :
+  /\ \/ \E name \in OptNames, v \in Values, q \in CT!Quotes \cap QuoteSet, d \in Decos :
           CT!AddOption(name, v, q, d.g, d.b1, d.b2, d.b3, IF CT!F.oe # 0 THEN "end" ELSE d.term)
      \/ \E name \in SecNames, d \in Decos : CT!OpenSection(name, d.g, d.b1, d.b2, d.g2)
      \/ \E d \in Decos : CT!CloseSection(d.g)
@@ -216,11 +220,11 @@ SaveDoc ==
 ---------------------------------------------------------------------------
 (* single calls of the base specification, within the frame *)
 Single ==
-  /\ "single" \in Routes /\ nops < MaxOps /\ (SinglesFirst => narr = 0)
+  /\ "single" \in Routes /\ nops < MaxOps /\ (SingleWhen = "first" => narr = 0)
   /\ \E via \in Vias : \E p \in PrePaths :
         /\ via = "view" => p \in RelSet
-        /\ \/ "assign" \in SingleKinds /\ \E v \in Vals : Assign(via, p, v, Sep, 0)
-           \/ "remove" \in SingleKinds /\ Remove(via, p, Sep)
+        /\ \/ "assign" \in SingleKinds /\ (SingleWhen = "around" => narr = 0) /\ \E v \in Vals : Assign(via, p, v, Sep, 0)
+           \/ "remove" \in SingleKinds /\ (SingleWhen = "around" => narr > 0) /\ Remove(via, p, Sep)
   /\ KeepDraft /\ pst' = pst /\ nops' = nops + 1 /\ narr' = narr
 
 (* mpt_config_load *)
@@ -265,8 +269,8 @@ Clear(cfg, items) ==
 MsgSet(cfg, hdr, split, els, val) ==
   /\ "msgset" \in Routes /\ CfgOK(cfg)
   /\ LET b  == BaseOf(cfg, "msgset")
-         as == IF els # <<>> THEN << [p |-> b \o els, v |-> val] >>
-               ELSE IF cfg = "view" THEN << [p |-> Base, v |-> val] >>      \* no element: the view's own element
+         as == IF els # <<>> THEN << [p |-> b \o els, v |-> TextOf(val)] >>
+               ELSE IF cfg = "view" THEN << [p |-> Base, v |-> TextOf(val)] >>      \* no element: the view's own element
                ELSE <<>>                                                      \* refused, nothing changes
      IN Store("msgset", [cfg |-> cfg, hdr |-> hdr, split |-> split, els |-> els, val |-> val],
               TAssignAll(tree, as), SAssignAll(st, as), [k |-> "set", as |-> as])
